@@ -204,10 +204,16 @@ func runScenario(ctl *hookctl.Ctl, idx int, sc scenario) (key, msg string, reach
 			err error
 		}
 		doneN := make(chan res, 1)
+		hN := fmt.Sprintf("N%d", idx)
 		go func() {
-			t, err := statedb.NewTable(db, "late", concw.IDIndex, concw.TagIndex)
+			t, err := statedb.NewTable(db.NewHandle(hN), "late", concw.IDIndex, concw.TagIndex)
 			doneN <- res{t, err}
 		}()
+		// let the registration get as far as it can (at commit.rootLocked it queues on the root lock) before A moves on
+		for i := 0; i < 2000 && ctl.At(hN) != "register.beforeLock" && len(doneN) == 0; i++ {
+			time.Sleep(50 * time.Microsecond)
+		}
+		time.Sleep(300 * time.Microsecond)
 		var late res
 		got := false
 		if sc.Point != "commit.rootLocked" || sc.AbortA {
@@ -346,9 +352,17 @@ func TestVerif_Forced(t *testing.T) {
 				// blocked on its own lock or similar: not granted
 			}
 			committed := make(chan struct{})
-			go func() { a.Commit(); close(committed) }()
+			var commitPanic any
+			go func() {
+				defer close(committed)
+				defer func() { commitPanic = recover() }()
+				a.Commit()
+			}()
 			select {
 			case <-committed:
+				if commitPanic != nil {
+					key, msg = "two-holders/unregistered-handle", fmt.Sprintf("Commit of the transaction holding every registered table panics after a transaction through a rejected table handle ran: %v", commitPanic)
+				}
 			case <-time.After(20 * time.Second):
 				key, msg = "stuck/after-rejected-registration", "Commit does not finish after a rejected duplicate NewTable"
 			}
